@@ -149,9 +149,58 @@ pub mod openssl {
         }
         }
     }
+    pub mod sign {
+        use vstd::prelude::*;
+        use super::error::ErrorStack;
+        verus! {
+        // openssl::sign::Signer: the key, the digest (none for the one-shot EdDSA form), the RSA padding in force (PKCS#1 v1.5 unless
+        // changed) and the data fed so far.  `sig_made` is the relation "sig is the signature of data by key under that scheme".
+        pub uninterp spec fn sig_made(key: int, padding: i32, digest: Option<u8>, data: Seq<u8>, sig: Seq<u8>) -> bool;
+        pub struct RsaPssSaltlen { pub v: i32 }
+        impl RsaPssSaltlen {
+            pub const DIGEST_LENGTH: RsaPssSaltlen = RsaPssSaltlen { v: -1 };
+            pub const MAXIMUM_LENGTH: RsaPssSaltlen = RsaPssSaltlen { v: -2 };
+            #[verifier::external_body] pub fn custom(n: i32) -> (r: RsaPssSaltlen) ensures r.v == n { unimplemented!() }
+        }
+        pub struct Signer<'a> { pub key: Ghost<int>, pub digest: Ghost<Option<u8>>, pub padding: Ghost<i32>, pub data: Ghost<Seq<u8>>, pub k: &'a u8 }
+        impl<'a> Signer<'a> {
+            #[verifier::external_body]
+            pub fn new<T>(md: super::hash::MessageDigest, key: &'a super::pkey::PKey<T>) -> (r: Result<Signer<'a>, ErrorStack>)
+                ensures r matches Ok(s) ==> s.key@ == key.ident@ && s.digest@ == Some(md.id) && s.padding@ == super::rsa::Padding::PKCS1.id && s.data@ == Seq::<u8>::empty() { unimplemented!() }
+            #[verifier::external_body]
+            pub fn new_without_digest<T>(key: &'a super::pkey::PKey<T>) -> (r: Result<Signer<'a>, ErrorStack>)
+                ensures r matches Ok(s) ==> s.key@ == key.ident@ && s.digest@ is None && s.padding@ == super::rsa::Padding::PKCS1.id && s.data@ == Seq::<u8>::empty() { unimplemented!() }
+            #[verifier::external_body]
+            pub fn set_rsa_padding(&mut self, p: super::rsa::Padding) -> (r: Result<(), ErrorStack>)
+                ensures final(self).key == old(self).key, final(self).digest == old(self).digest, final(self).data == old(self).data,
+                    r is Ok ==> final(self).padding@ == p.id, r is Err ==> final(self).padding == old(self).padding { unimplemented!() }
+            #[verifier::external_body]
+            pub fn set_rsa_pss_saltlen(&mut self, l: RsaPssSaltlen) -> (r: Result<(), ErrorStack>)
+                ensures *final(self) == *old(self) { unimplemented!() }
+            #[verifier::external_body]
+            pub fn update(&mut self, d: &[u8]) -> (r: Result<(), ErrorStack>)
+                ensures final(self).key == old(self).key, final(self).digest == old(self).digest, final(self).padding == old(self).padding,
+                    r is Ok ==> final(self).data@ == old(self).data@ + d@ { unimplemented!() }
+            #[verifier::external_body]
+            pub fn sign_to_vec(&self) -> (r: Result<Vec<u8>, ErrorStack>)
+                ensures r matches Ok(v) ==> sig_made(self.key@, self.padding@, self.digest@, self.data@, v@) { unimplemented!() }
+            #[verifier::external_body]
+            pub fn sign_oneshot_to_vec(&mut self, d: &[u8]) -> (r: Result<Vec<u8>, ErrorStack>)
+                ensures r matches Ok(v) ==> sig_made(old(self).key@, old(self).padding@, old(self).digest@, d@, v@) { unimplemented!() }
+        }
+        }
+    }
     pub mod rsa {
         use vstd::prelude::*;
         verus! {
+        #[derive(Clone, Copy, PartialEq, Eq)]
+        pub struct Padding { pub id: i32 }
+        impl Padding {
+            pub const NONE: Padding = Padding { id: 3 };
+            pub const PKCS1: Padding = Padding { id: 1 };
+            pub const PKCS1_OAEP: Padding = Padding { id: 4 };
+            pub const PKCS1_PSS: Padding = Padding { id: 6 };
+        }
         pub struct Rsa<T> { pub size: u32, pub ident: Ghost<int>, pub p: Option<T> }
         pub uninterp spec fn rsa_e(ident: int) -> Seq<u8>;
         pub uninterp spec fn rsa_n(ident: int) -> Seq<u8>;
